@@ -170,6 +170,7 @@ var queries = []string{"T | where a == x | take lim", "T | count", "T | where s 
 	// strings and names that contain the comment marker, alone and beside a quote of the other kind
 	"T | where u == 'http://h'", "T | where u == \"it's\" and v == 'http://h'", "`a//b` | count", "T | where u == \"a\\\"//b\" | take 1", "T | where u == '//' // c\n| count", "T | extend w = strcat('x//', \"'//\")",
 	// tables whose names begin like the let keyword
+	"set | count", "set", "set | where a == x", "distinct | take 1", "`set` | count",
 	"let_events | count", "let2 | take 1", "letters | where a == x", "Let | count", "`let` | take lim", "let_ | project a", "lets\n| count",
 	// quoted names and strings that end in a backslash right before the semicolon
 	"T | project `a\\`", "`t\\` | count", "T | where s == 'a\\\\'", "T | where s == \"q\\\\\" and `b\\` > x", "T | extend `c\\\\` = 'd\\\\'"}
